@@ -120,5 +120,9 @@ def sym_thetas(w, n, prefix='t', lo=None, hi=None, window=True):
             elif abs(t) < 1e-6:
                 from .world import HarnessReject
                 raise HarnessReject('cut-off window')
+        if not w.symbolic and (abs(t - float(lo)) < 0.01 or abs(float(hi) - t) < 0.01):
+            # concrete replays differentiate numerically: stay clear of the clamping limits
+            from .world import HarnessReject
+            raise HarnessReject('too close to a joint limit for central differences')
         out.append(t)
     return out
